@@ -257,11 +257,7 @@ func run(r *vk.Runner) {
 					if fi != 0 || pi != 0 {
 						t.Nontrivial()
 					}
-					want, err := bc.canonical()
-					if err != nil {
-						t.Class("does-not-compile")
-						return
-					}
+					want, cerr := bc.canonical()
 					nb := bc.fresh()
 					nb.ListOrder = apply(fp, bc.files)
 					nb.Packages = apply(pp, bc.b.Packages)
@@ -269,6 +265,16 @@ func run(r *vk.Runner) {
 					got, err := compileAll(nb, nb.Packages)
 					t.Steps(len(nb.Packages))
 					input := fmt.Sprintf("file listing %v, package listing %v\n%s", nb.ListOrder, nb.Packages, bc.src)
+					if cerr != nil {
+						// rejected in the default order: then it must be rejected in every order (why it
+						// is rejected is C07's business)
+						if err == nil {
+							t.Violation("listing-order|compiles-only-in-some-orders|"+bc.c.Family+"|"+vk.ErrTail(cerr), "the bundle is rejected in the default listing order ("+cerr.Error()+") but compiles in this one\n"+input, input, nil, cerr.Error())
+							return
+						}
+						t.Class("does-not-compile")
+						return
+					}
 					if err != nil {
 						t.Violation("listing-order|compile-fails|"+bc.c.Family+"|"+vk.ErrTail(err), "the bundle compiles in the default listing order but not in this one: "+err.Error()+"\n"+input, input, nil, err.Error())
 						return
@@ -425,10 +431,7 @@ func run(r *vk.Runner) {
 		base, want, err, _ := exec(nil, nil)
 		base2, want2, _, _ := exec(nil, nil)
 		if err != nil {
-			if bc.c.Family == "bundles" {
-				panic(fmt.Sprintf("bundle %s does not compile: %v", bc.c.ID, err))
-			}
-			continue // C07's business
+			continue // C07's business; the listing family reports bundles that compile in some orders only
 		}
 		if fmt.Sprint(base) != fmt.Sprint(base2) || diff(want, want2) != "" {
 			panic(fmt.Sprintf("harness: default execution of %s is not reproducible (%d vs %d choice points)", bc.c.ID, len(base), len(base2)))
